@@ -31,7 +31,7 @@ ASSUMPTIONS = [
 TRUSTED = ["system OpenSSL 3 (libssl/libcrypto)", "link-time interposition of SSL_read/SSL_write_ex/BIO_get_data in the harness"]
 ALL_TAGS = ["send.unlimited", "send.zero", "send.limited", "recv.unlimited", "recv.zero", "recv.limited",
             "query.pollout", "query.suppressed", "query.idle", "task.readable", "task.writable", "task.pending",
-            "step.idle", "enq"]
+            "step.idle", "enq", "query.received"]
 EXHAUSTIVE = {"thorough": True, "quick": False}
 SHRINK = False  # a case is one configuration; its op lines are not independent
 
@@ -41,15 +41,7 @@ def nontrivial(ops, tags):
 
 
 def matches_known(k, ops, msg, tr):
-    if k.get("id") == "F8":
-        if not msg.startswith("tls-pending-stall"):
-            return False
-        setup = [o for o in ops if o.startswith("setup ")]
-        if not setup:
-            return False
-        kv = dict(t.split("=", 1) for t in setup[0].split()[1:] if "=" in t)
-        return "async" in (kv.get("cli"), kv.get("srv")) and int(kv.get("rsz", "4096")) < 16384
-    return False
+    return False   # F8 (async receive buffer smaller than a TLS record) was repaired upstream (e840f43): no open finding left
 
 
 def case_ops(cli, srv, ct, st, cf, sf, style, seg, seed, csz, ssz, shared=0, rsz=20000, extra=""):
@@ -139,8 +131,11 @@ def specials(rng):
     for cli, srv in (("basic", "async"), ("async", "async")):
         o = case_ops(cli, srv, 0, 0, "s", "r", "seq", 0, rng.randrange(10**6), 3000, 100, extra="wsegs=200 wsegc=150")
         out.append(o)
-    # known finding F8: async receive buffer smaller than one TLS record
-    out.append(case_ops("basic", "async", 0, 0, "s", "r", "seq", 0, rng.randrange(10**6), 10000, 0, rsz=4096))
+    # F8 (fixed by e840f43): async receive buffer smaller than one TLS record - the rest of the decrypted record must be
+    # delivered by the following steps without any further wire event (tag query.received)
+    for srv_first, csz, rsz in (("r", 10000, 4096), ("r", 40000, 1000), ("s", 16384, 16383)):
+        out.append(case_ops("basic", "async", 0, 0, "s", srv_first, "seq", 0, rng.randrange(10**6), csz, 0 if srv_first == "r" else 50, rsz=rsz))
+    out.append(case_ops("async", "async", 0, 0, "s", "s", "seq", 0, rng.randrange(10**6), 30000, 30000, shared=1, rsz=777))
     return [o for o in out if o]
 
 
@@ -195,5 +190,5 @@ LEVEL_NOTE = ("handshake_completes is proved ONLY in the restricted form handsha
               "level only (the healthy channel of the composition never refuses a write). Trusted: Lean kernel; axioms propext/Quot.sound/Classical.choice; the hand-written model (correspondence on the "
               "generated matrix only); harness, vos shim and the OpenSSL interposers. Confidentiality and the TLS protocol itself are "
               "OpenSSL's (assumed); handshake completion for async endpoints and blocking timeouts rests on the pollout_protocol "
-              "invariant plus the exhaustive implementation matrix, not on a single liveness theorem. Open known finding F8 "
-              "(async receive buffer smaller than a TLS record) is reported as KNOWN-FINDING.")
+              "invariant plus the exhaustive implementation matrix, not on a single liveness theorem. F8 (async receive buffer smaller than a "
+              "TLS record) is repaired upstream (e840f43); the model carries both sides: legacy_pending_stalls / received_is_served.")
